@@ -74,7 +74,10 @@ Verdict(t, e) ==
          LET a == St(t, e.a) b == St(t, e.b) ex == ExpTraceDist(a, b) IN
          IF ~StateOK(a) \/ ~StateOK(b) THEN <<"HarnessStateInvalid", e.via>>
          ELSE IF e.out.err # "" THEN <<"Raised", e.via>>
-         ELSE IF ex[1] /\ (e.out.d = 0 \/ ~REq(RatOut(e.out), ex[2])) THEN <<"TraceDistCommuting", e.via>>
+         ELSE IF ex[1] /\ (e.out.d = 0 \/ ~REq(RatOut(e.out), ex[2])) THEN
+              <<"TraceDistCommuting",
+                IF e.via = "TraceDistance(target=dm,state=s)" /\ \E k \in DOMAIN b.branches[1].rows : b.branches[1].rows[k].s = 1
+                THEN "stabilizer-rows-with-minus-sign" ELSE e.via>>
          ELSE <<"ok", "">>
     [] e.fn = "infidelity" ->
          LET a == St(t, e.a) b == St(t, e.b) ex == ExpFidelity(a, b) IN
